@@ -69,7 +69,7 @@ def judge_observations(c, scen, res, deaths, must, name="observations"):
     stats["rule_holds"] = sum(1 for _, h in judged if h == "TRUE")
     for k in rejected:
         s, ev, cs = back[k - 1]
-        key = "observed:%s:%s:%s" % (ev.get("source"), cs["lib"], re.sub(r"[0-9]+", "#", ev.get("mutation", ""))[:40])
+        key = "observed:%s:%s:%s%s" % (ev.get("source"), cs["lib"], re.sub(r"[0-9]+", "#", ev.get("mutation", ""))[:40], ":on a shared parsed object %s" % cs["shared"] if cs.get("shared") else "")
         c.report(key, "library verdict %s for a blob (%s of %s) on which the rule %s" % (cs["lib"], ev.get("mutation"), ev.get("source"),
                  "does not hold" if cs["lib"].startswith("true") else "holds"), {"scenario": s, "mutation": ev.get("mutation"), "case": cs})
     return stats
